@@ -15,7 +15,7 @@ STUBS = ['SymStream (io.BytesIO)', 'SxPacker (struct.Struct)']
 OUTSIDE = ['materialised tables with >= 0xff00 entries (the escape is checked on the counts)', 'images larger than ~2 KiB',
            'non-ASCII section names', 'names no vendored registry defines (C17 lists them)']
 
-MACH = {'generic': 3, 'ARM': 40, 'AARCH64': 183, 'X86_64': 62, 'MIPS': 8, 'RISCV': 243}
+MACH = {'generic': 3, 'ARM': 40, 'AARCH64': 183, 'X86_64': 62, 'MIPS': 8, 'RISCV': 243, 'SPARC': 2, 'SPARCV9': 43, 'PPC64': 21}
 MACH_PREFIX = {'ARM': ('SHT_ARM_', 'PT_ARM_'), 'AARCH64': ('SHT_AARCH64_', 'PT_AARCH64_'), 'X86_64': ('SHT_X86_64_', 'SHT_AMD64_'),
                'MIPS': ('SHT_MIPS_', 'PT_MIPS_'), 'RISCV': ('SHT_RISCV_', 'PT_RISCV_')}
 ALL_PREFIXES = sorted({p for ps in MACH_PREFIX.values() for p in ps})
@@ -343,8 +343,8 @@ LINK_SYMTAB = {18, 0x6ffffffc, 0x6fffffff, 5, 0x6ffffff6}
 LINK_STRTAB = {2, 11, 0x6ffffff3, 0x6ffffffe, 0x6ffffffd, 6}
 
 
-def _kind_image(ctx, cls, little, machine, sh_type, name='.x', link=None, content=None):
-    img = Image(cls, little, machine=MACH[machine])
+def _kind_image(ctx, cls, little, machine, sh_type, name='.x', link=None, content=None, osabi=0):
+    img = Image(cls, little, machine=MACH[machine], osabi=osabi)
     img.section('', sh_type=0)
     stroff = img.blob([0, 0x61, 0])
     img.section('.strtab', sh_type=3, sh_offset=stroff, sh_size=3)                                   # 1
@@ -387,11 +387,11 @@ def h_kinds(ctx):
         # minimal hash tables: nbucket=1,nchain=1 / nbuckets=1,symoffset=1,bloom_size=1,shift=0
         w = lambda v: enc.enc_int(v, 4, little)
         content = (w(1) + w(1) + w(0) + w(0)) if t == 5 else (w(1) + w(1) + w(1) + w(0) + [0] * (cls // 8) + w(0) + [0] * 8)
-    data = _kind_image(ctx, cls, little, machine, code, name=name, link=link, content=content)
+    data = _kind_image(ctx, cls, little, machine, code, name=name, link=link, content=content, osabi=cfg.get('osabi', 0))
     elf = open_elf(ctx, data)
     sec = elf.get_section(3)
     ctx.outcome('ok')
-    ctx.check_eq('kind/%s/%s' % (t if t == 'other' else hex(t), machine), type(sec).__name__, want)
+    ctx.check_eq('kind/%s/%s/osabi=%d' % (t if t == 'other' else hex(t), machine, cfg.get('osabi', 0)), type(sec).__name__, want)
     ctx.check_eq('kind/name', sec.name, name)
     ctx.check_eq('kind/via-iter', type(ctx.walk(lambda: elf.iter_sections())[3]).__name__, want)
 
@@ -514,6 +514,10 @@ def _kinds_instances(tier):
             out.append(dict(elfclass=cls, little=little, machine=m, sh_type=0x70000003))
             out.append(dict(elfclass=cls, little=little, machine=m, sh_type='other'))
         out.append(dict(elfclass=cls, little=little, machine='X86_64', sh_type='other', name='.stab'))
+        # the kind follows the type code in every processor and OS context (Solaris objects, SPARC, ... carry the same version, symbol and hash sections)
+        for t in sorted(KINDS):
+            for m, o in (('generic', 6), ('SPARC' if cls == 32 else 'SPARCV9', 6), ('MIPS', 0), ('ARM' if cls == 32 else 'AARCH64', 3), ('PPC64' if cls == 64 else 'RISCV', 9)):
+                out.append(dict(elfclass=cls, little=little, machine=m, sh_type=t, osabi=o))
     return out
 
 
